@@ -530,7 +530,7 @@ def run(ctx):
     proof_ok = vlib.standard_proof_part(ctx, "props/C11.v", allowed_axioms=(),
                                         extra_targets=["run/RunRefsRepr.vo", "run/RunRefsPrint.vo"], translators=["refsrepr"])
     rng = ctx.rng
-    n = ctx.pick(700, 12000)
+    n = ctx.pick(1500, 60000)
     exprs = corpus() + [gen_expr(rng, rng.choice([1, 2, 2, 3, 3, 4])) for _ in range(n)]
     seen, uniq = set(), []
     for t in exprs:
@@ -579,7 +579,7 @@ def run(ctx):
     ctx.obligations.append(("oracle: eval(str(e)) == e, same value, same dependencies (also under rebinding), both builds",
                             not viol, f"{len(viol)} failing of {ncase}"))
     # -- manager histories
-    ncases = ctx.pick(120, 2500)
+    ncases = ctx.pick(250, 12000)
     mcases = [gen_manager_case(rng) for _ in range(ncases)]
     mres = {("compiled", 0): run_managers(mcases, "compiled", 0), ("pure", 1): run_managers(mcases, "pure", 1)}
     mviol = [(b, i, r["fail"]) for (b, hs), rs in mres.items() for i, r in enumerate(rs) if r.get("fail")]
